@@ -13,9 +13,9 @@ const maxBlob = 16 << 20 // the documented blob limit (pkg/constants.MaxBlobSize
 
 // bigData holds one random buffer and the refs of its prefixes around the 16 MiB limit.
 type bigData struct {
-	buf                        []byte
-	under, at, over1, over4k   blob.Ref
-	flipped                    []byte // buf[:16MiB] with one bit of the last byte flipped
+	buf                         []byte
+	under, at, over1, over4k    blob.Ref
+	flipped                     []byte // buf[:16MiB] with one bit of the last byte flipped
 	hUnder, hAt, hOver1, hOver4 string
 }
 
@@ -85,8 +85,24 @@ func (s *session) bigScript(b *bigData) {
 			}
 			s.r.Note("direct_oversize_observed", s.label+":"+res)
 		}
-		for _, kind := range []string{"flip", "under", "at"} {
-			do(kind, "", "plain")
+		do("flip", "", "plain")
+		if s.label == "memory" {
+			do("under", "", "plain")
+			do("at", "", "frag")
+		} else {
+			// outside the tier's 16 MiB scope (memory, localdisk, diskpacked): observation only
+			of := b.offer("at")
+			_, err := s.b.S.ReceiveBlob(ctxbg, of.Ref, mkReader("plain", of.Data, 0, s.rng))
+			res := "accepted"
+			if err != nil {
+				res = "rejected: " + err.Error()
+				if len(res) > 160 {
+					res = res[:160]
+				}
+			} else {
+				s.stored[of.Ref] = of.Data
+			}
+			s.r.Note("direct_16MiB_valid_observed", s.label+": "+res)
 		}
 		return
 	}
